@@ -263,7 +263,7 @@ def timing_cases(ctx, alpha, gens, maxlines, emit=True, workers=14, simulate=Non
     return cases
 
 
-def rand_timing_module(ctx, nlines, salt=0):
+def rand_timing_module(ctx, nlines, salt=0, module="RandTiming", base="TimingLines"):
     """Randomised alphabet for TimingLines (see rand_lines_module): times from a small pool (so that groups form), beat
     lengths of every sign and magnitude (inside the velocity / scroll clamps only values that divide 100000, the model's
     exactness rule), meters, banks, custom indices, volumes and flag bytes from wide ranges, 2..8 fields."""
@@ -290,12 +290,12 @@ def rand_timing_module(ctx, nlines, salt=0):
         if not unin and rnd.random() < 0.08:
             f.append('!.blc = "nan"')
         lines.append("[Base(%d) EXCEPT %s]" % (rnd.choice(pool), ", ".join(f)))
-    text = ("----------------------------- MODULE RandTiming -----------------------------\n"
+    text = ("----------------------------- MODULE %s -----------------------------\n"
             "(* generated by bin/plans.py (rand_timing_module) from VERIF_SEED = %d - do not edit.  A randomised alphabet for\n"
-            "   TimingLines: the model is the oracle, the values it is asked about change with the seed. *)\n"
-            "EXTENDS TimingLines\n\nRandTAlpha == <<\n    %s >>\n"
-            "=============================================================================\n") % (ctx.seed, ",\n    ".join(lines))
-    path = os.path.join(SPEC, "RandTiming.tla")
+            "   %s: the model is the oracle, the values it is asked about change with the seed. *)\n"
+            "EXTENDS %s\n\nRandTAlpha == <<\n    %s >>\n"
+            "=============================================================================\n") % (module, ctx.seed, base, base, ",\n    ".join(lines))
+    path = os.path.join(SPEC, module + ".tla")
     old = open(path).read() if os.path.exists(path) else None
     if old != text:
         with open(path, "w") as fh:
@@ -1078,8 +1078,8 @@ def check_C04(ctx):
                   "the encodings of bundled, generated, hostile and non-chronological maps; non-trivial = distinct decodable path strings / maps")
 
 
-def timingenc_cases(ctx, alpha, gens, maxlines, scroll=True, expect_violation=False):
-    name = "MC_TimingEncode_%s_%s_%d%s" % (alpha, gens, maxlines, "" if scroll else "_pinned")
+def timingenc_cases(ctx, alpha, gens, maxlines, scroll=True, expect_violation=False, module="TimingEncode"):
+    name = "MC_%s_%s_%s_%d%s" % (module, alpha, gens, maxlines, "" if scroll else "_pinned")
     cases = os.path.join(ctx.work, name + ".ndjson")
     body = cases + ".body"
     for p in (cases, body):
@@ -1088,7 +1088,7 @@ def timingenc_cases(ctx, alpha, gens, maxlines, scroll=True, expect_violation=Fa
     cfg = dict(spec="Spec", invariants=["EncAccepted", "RoundTrip", "EmitEncCase"],
                constants=dict(Alpha="<-" + alpha, Gens="<-" + gens, MaxLines=str(maxlines), MinLines="0", Emit="TRUE" if not expect_violation else "FALSE",
                               ScrollAsVelocity="TRUE" if scroll else "FALSE", EmitEnc="FALSE" if expect_violation else "TRUE"))
-    r = tlc(ctx, "TimingEncode", name, cfg, workers=14, timeout=3000, cases_file=None if expect_violation else body,
+    r = tlc(ctx, module, name, cfg, workers=14, timeout=3000, cases_file=None if expect_violation else body,
             expect_violation=expect_violation, count=not expect_violation)
     if expect_violation:
         return None
@@ -1144,6 +1144,14 @@ def check_C02(ctx):
         f = timingenc_cases(ctx, a, g, n)
         summ = harness(ctx, ["timingcodec", "replay", "--prop", "C02"], cases_file=f, name="timingcodec", timeout=3600)
         report_mismatches(ctx, summ, "timing points do not survive decode -> encode -> decode / the encoder differs from TimingEncode")
+    # the same over a seed-generated alphabet (RandTimingEnc = TimingEncode + random lines)
+    for salt in ([2, 1, 0] if thorough else [0]):
+        rand_timing_module(ctx, 45, salt, module="RandTimingEnc", base="TimingEncode")
+        sany(ctx, "RandTimingEnc")
+        f = timingenc_cases(ctx, "RandTAlpha", "GensModes", 2, module="RandTimingEnc")
+        summ = harness(ctx, ["timingcodec", "replay", "--prop", "C02"], cases_file=f, name="timingcodec-rand", timeout=3600)
+        report_mismatches(ctx, summ, "timing points do not survive decode -> encode -> decode / the encoder differs from TimingEncode (randomised alphabet %d)" % salt)
+        os.remove(f)
     # the pinned encoder (velocity written instead of scroll speed in taiko/mania) violates the model's round trip
     timingenc_cases(ctx, "AlphaVel", "GensModes", 2, scroll=False, expect_violation=True)
     # (4) whole maps: bundled + structured generator, field list of the statement
